@@ -259,7 +259,7 @@ func (g *rxGen) seq3(depth int, allowSet bool) (string, string, string) {
 			a.WriteString(q)
 			b.WriteString(q)
 		case k < 52:
-			cm := Pick(g.r, []string{"#c\n", "# (a\n", "(?#c)", "(?#(a)", "#)\n"})
+			cm := Pick(g.r, []string{"#c\n", "# (a)\n", "(?#c)", "(?#(a)", "#()\n", "# (?<n>a)\n"}) // balanced: neutral with x on (comment) and off (text)
 			a.WriteString(cm)
 			b.WriteString(cm)
 		case k < 62 && allowSet:
